@@ -65,18 +65,27 @@ def Name.text (codes : List Bytes) : Name → Option Bytes
   | .known i => codes[i]?
   | .other b => some b
 
-/-- `VectorString._parse` for an `SshAlgorithmVector`: the 4-byte length is read from
-`parsable[:4]`; length 0 is the empty list; otherwise the body is the SLICE
-`parsable[4 : 4 + length]` — shorter than `length` when the data is short, which is accepted — and
-all of it is consumed.  The constructor's size check (`0 … 2^32-1`) cannot fail: the item sizes sum
-to at most the body length. -/
-def parseNameList (codes : List Bytes) (bs : Bytes) : Except PErr (List Name × Nat) := do
+/-- `SshNameListBase._parse` and the head of `VectorString._parse`: the 4-byte length is read from
+`parsable[:4]`; the declared body must be there (`NotEnoughData(4 + length - len)`, repaired: a short
+body used to be accepted) and must not end in a comma (`InvalidValue`, repaired: one trailing
+separator used to be tolerated).  Returns the body `parsable[4 : 4 + length]` and the consumed
+length — all of the body is consumed. -/
+def nameListBody (bs : Bytes) : Except PErr (Bytes × Nat) := do
   let (len, n) ← parseNum .network 4 (bs.take 4)
-  if len == 0 then pure ([], n)
+  if bs.length < 4 + len then .error (.notEnough ((4 + len - bs.length : Nat) : Int))
   else
     let body := (bs.drop 4).take len
+    if body.getLast? == some comma then .error .invalidValue else pure (body, n + body.length)
+
+/-- `VectorString._parse` for an `SshAlgorithmVector`: length 0 is the empty list; otherwise the
+body is split at commas.  The constructor's size check (`0 … 2^32-1`) cannot fail: the item sizes
+sum to at most the body length. -/
+def parseNameList (codes : List Bytes) (bs : Bytes) : Except PErr (List Name × Nat) := do
+  let (body, n) ← nameListBody bs
+  if body.isEmpty then pure ([], n)
+  else
     let items ← splitItems comma body
-    pure (items.map (classify codes), n + body.length)
+    pure (items.map (classify codes), n)
 
 def nameTexts (codes : List Bytes) : List Name → Except PErr (List Bytes)
   | [] => .ok []
@@ -119,13 +128,12 @@ def parseLanguageTags : List Bytes → Except PErr (List (List Bytes))
 
 /-- `SshLanguageVector._parse` (`item_class=LanguageTag`, no fallback) -/
 def parseLanguageList (bs : Bytes) : Except PErr (List (List Bytes) × Nat) := do
-  let (len, n) ← parseNum .network 4 (bs.take 4)
-  if len == 0 then pure ([], n)
+  let (body, n) ← nameListBody bs
+  if body.isEmpty then pure ([], n)
   else
-    let body := (bs.drop 4).take len
     let items ← splitItems comma body
     let tags ← parseLanguageTags items
-    pure (tags, n + body.length)
+    pure (tags, n)
 
 /-- `LanguageTag.compose` -/
 def composeLanguageTag (tag : List Bytes) : Except PErr Bytes :=
